@@ -2,6 +2,7 @@ import Avfs.Driver.Idm
 import Avfs.Driver.Path
 import Avfs.Driver.Copy
 import Avfs.Driver.FS
+import Avfs.Driver.OSType
 /-
   avfsdrv: line-protocol driver. One input line -> exactly one output line.
   Core Lean only (links natively).
@@ -19,6 +20,7 @@ def stepLine (st : DState) (line : String) : DState × String :=
   | "idmspec" :: rest => let (s, o) := Idm.specExec st.idmSpec rest; ({ st with idmSpec := s }, o)
   | "path" :: rest => (st, Path.exec rest)
   | "fs" :: rest => let (s, o) := FS.exec st.fs rest; ({ st with fs := s }, o)
+  | "ostype" :: rest => (st, OSType.exec rest)
   | "copy" :: rest => (st, Copy.exec rest)
   | "pathspec" :: rest => (st, Path.specExec rest)
   | ["#"] => (st, "#")
